@@ -27,7 +27,12 @@ def subclasses_of(w, tables, tdesc):
 def gen_fn_scenario(rng: random.Random, static_only=True, simple_sigs=False, bodies=True, kinds=None, nuser=None, is_method=None, type_args=False):
     # (type-valued arguments: one world in three is rich in generic classes deriving from one another, so that aliases
     # of related origins meet: type[Box[A]] against Crate[int])
-    w = make_world(rng, nuser=nuser, generics=0.45) if type_args and rng.random() < 0.33 else make_world(rng, nuser=nuser)
+    if type_args and rng.random() < 0.33:
+        w = make_world(rng, nuser=nuser, generics=0.45)
+    elif not type_args and rng.random() < 0.12:
+        w = make_world(rng, nuser=max(3, nuser or rng.randint(3, 6)), twins=True)
+    else:
+        w = make_world(rng, nuser=nuser)
     if kinds is None:
         kinds = ["cls"] * 6 if static_only else ["cls"] * 6 + ["union", "inter", "exactly", "strict", "hasm", "pred"]
     g = TypeGen(w, rng, kinds=kinds)
@@ -43,6 +48,16 @@ def gen_fn_scenario(rng: random.Random, static_only=True, simple_sigs=False, bod
         anc = [c for c in range(w.n) if tb[focus][c] and c != 1]
         rng.shuffle(anc)
         pool_types = [["cls", c] for c in anc[: rng.randint(2, 6)]] + pool_types[:1]
+    # twin protocols (two runtime protocols requiring the same method: distinct classes that are subclasses of each
+    # other): when the world has a pair, annotate with both — neither is more specific than the other
+    protos = {}
+    for ui, u in enumerate(w.desc["user"]):
+        if u["kind"] == "proto":
+            protos.setdefault(u.get("proto_attr"), []).append(NBUILTIN + ui)
+    twins = [v for v in protos.values() if len(v) >= 2]
+    if twins and rng.random() < 0.7:
+        tw = rng.choice(twins)
+        pool_types = [["cls", tw[0]], ["cls", tw[1]]] + pool_types[:2]
     ismeth = (rng.random() < 0.2) if is_method is None else is_method
     type_vals = []
     plain_pos, plain_pool = None, []
@@ -274,7 +289,9 @@ def gen_fn_scenario(rng: random.Random, static_only=True, simple_sigs=False, bod
     rng.shuffle(tyrank)
     hrank = list(range(nmeth))
     rng.shuffle(hrank)
-    sc = {"defs": defs, "args": args, "ops": ops, "tyrank_desc": tyrank, "hrank": hrank, "allowReplacement": True}
+    sc = {"defs": defs, "args": args, "ops": ops, "tyrank_desc": tyrank, "hrank": hrank, "allowReplacement": True,
+          # parameter names that collide with the names the generated entry point uses itself, now and then
+          "odd_names": rng.random() < 0.2}
     return w, sc
 
 
